@@ -133,6 +133,7 @@ def run(run, ix, tier):
     run.rule('A-R4', floor=4, desc='two-phase protocol pairing')
     run.rule('A-R5', floor=2, desc='_wrap_specfun wrapper integrity')
     run.rule('A-R6', floor=4, desc='setter agreement')
+    run.rule('A-R7', floor=2, desc='no saved precision is restored after a yield (generators)')
     nwriters = len(eng.writers)
     nwrites = sum(s.writes for s in eng.summaries.values())
     if nwriters < 90 or nwrites < 300:
@@ -200,6 +201,8 @@ def run(run, ix, tier):
     check_manager_activations(run, ix)
     # ---- A-R6 ------------------------------------------------------------------
     check_setters(run, ix)
+    # ---- A-R7 ------------------------------------------------------------------
+    check_generators(run, ix)
 
 
 # ---------------------------------------------------------------------------
@@ -314,7 +317,17 @@ def check_protocols(run, ix, eng):
         snap = None
         seen_write = False
         order_ok = True
+        stack = False
         for st in _stmts_in_order(f1.node):
+            if isinstance(st, ast.Expr) and isinstance(st.value, ast.Call) and \
+                    isinstance(st.value.func, ast.Attribute) and st.value.func.attr == 'append' and \
+                    len(st.value.args) == 1 and is_cell_attr(st.value.args[0]) and \
+                    st.value.args[0].attr == 'prec' and isinstance(st.value.func.value, ast.Attribute):
+                # stack form: self.<slot>.append(<ctx>.prec)
+                if seen_write:
+                    order_ok = False
+                snap = norm(st.value.func.value)
+                stack = True
             if isinstance(st, ast.Assign):
                 if is_cell_attr(st.value) and st.value.attr == 'prec' and \
                         isinstance(st.targets[0], ast.Attribute):
@@ -335,11 +348,27 @@ def check_protocols(run, ix, eng):
         for st in _stmts_in_order(f2.node):
             if isinstance(st, ast.Assign) and len(st.targets) == 1 and \
                     is_cell_attr(st.targets[0]) and st.targets[0].attr == 'prec' \
-                    and snap is not None and norm(st.value) == snap:
+                    and snap is not None and norm(st.value) == (snap + '.pop()' if stack else snap):
                 restores.append(st)
         if snap is not None and not restores:
             problems.append('%s does not restore <ctx>.prec from %s' % (m2, snap))
         if m2 == '__exit__':
+            # a context manager object can be entered again while it is active (the same object in
+            # a nested `with`, a decorated function that recurses): a single slot is overwritten by
+            # the inner entry and the outer exit then restores the raised precision.  The saved
+            # precisions must form a stack (push in __enter__, pop in __exit__), created per object.
+            if snap is not None and not stack:
+                problems.append('the saved precision is a single slot (%s): entering the same manager '
+                                'object again overwrites it and the outer exit restores the wrong '
+                                'precision; a stack is needed' % snap)
+            if stack:
+                init = ix.func(rel, '%s.__init__' % cls)
+                made = [x for x in _walk_own(init.node) if isinstance(x, ast.Assign) and
+                        any(norm(t) == snap for t in x.targets) and
+                        isinstance(x.value, ast.List) and not x.value.elts]
+                if not made:
+                    problems.append('the stack %s is not created empty per object in __init__' % snap)
+                PROTOCOL_STACKS.add(cls)
             # unconditional, and must not swallow exceptions
             for st in restores:
                 if getattr(st, '_parent', None) is not f2.node:
@@ -355,6 +384,7 @@ def check_protocols(run, ix, eng):
             run.ok('A-R4', '%s %s.%s saves %s, %s restores it through .prec' % (rel, cls, m1, snap, m2))
 
 
+PROTOCOL_STACKS = set()
 MANAGER_FACTORIES = ('workprec', 'workdps', 'extraprec', 'extradps', 'PrecisionManager')
 
 
@@ -404,6 +434,10 @@ def check_manager_activations(run, ix):
                 txt = norm(e)
                 shared = (selfname is not None and txt == selfname) or txt in handles or \
                     isinstance(e, ast.Attribute)
+                if 'PrecisionManager' in PROTOCOL_STACKS:
+                    # A-R4 proved the saved precisions form a per-object stack: re-entry is safe
+                    run.ok('A-R4r', '%s: `%s` re-entered safely (stack)' % (f.qualname, txt) if shared else None)
+                    continue
                 if isinstance(e, ast.Name) and not shared:
                     # a local created in this very function from a factory call is per activation
                     local = [y for y in _walk_own(f.node) if isinstance(y, ast.Assign) and
@@ -576,3 +610,76 @@ def _eval_formula(expr):
         return tuple(ev(expr, n) for n in range(1, 4001))
     except Exception:
         return None
+
+
+# ---------------------------------------------------------------------------
+# A-R7: a generator hands control to its consumer at every yield, and the consumer may change
+# the precision before asking for the next item.  A precision saved BEFORE a yield and written
+# back AFTER it therefore resets the consumer's precision to a stale value.
+A_R7_INTERNAL = {
+    # (file, qualname): reason the generator never runs interleaved with foreign code
+    ('mpmath/functions/zeta.py', 'primezeta.terms'):
+        'passed to sum_accurately, which consumes it completely inside its own try/finally without '
+        'touching the precision between items; never handed to the caller',
+}
+
+
+def check_generators(run, ix):
+    from ..flow import FlowAnalysis
+
+    class Stale(FlowAnalysis):
+        def __init__(self):
+            self.bad = []
+
+        def join(self, a, b):
+            return a | b
+
+        def simple(self, node, state):
+            has_yield = any(isinstance(x, (ast.Yield, ast.YieldFrom)) for x in _walk_own(node)) or \
+                isinstance(getattr(node, 'value', None), (ast.Yield, ast.YieldFrom))
+            st = state
+            if isinstance(node, ast.Assign) and len(node.targets) == 1:
+                t = node.targets[0]
+                if isinstance(t, ast.Name) and is_cell_attr(node.value):
+                    st = frozenset(x for x in st if x[0] != t.id) | {(t.id, 'fresh')}
+                elif isinstance(t, ast.Name):
+                    st = frozenset(x for x in st if x[0] != t.id)
+                elif is_cell_attr(t) and isinstance(node.value, ast.Name):
+                    if (node.value.id, 'stale') in st:
+                        self.bad.append(node)
+            if has_yield:
+                st = frozenset((n, 'stale') for n, _ in st)
+            return st, st
+
+    n = 0
+    for f in ix.all_funcs():
+        if not isinstance(f.node, ast.FunctionDef):
+            continue
+        own = list(_walk_own(f.node))
+        if not any(isinstance(x, (ast.Yield, ast.YieldFrom)) for x in own):
+            continue
+        writes = [x for x in own if isinstance(x, ast.Assign) and len(x.targets) == 1 and
+                  is_cell_attr(x.targets[0]) and isinstance(x.value, ast.Name)]
+        if not writes:
+            continue
+        n += 1
+        an = Stale()
+        an.run(f.node.body, frozenset())
+        key = (f.file, f.qualname)
+        if not an.bad:
+            run.ok('A-R7', '%s: every restore uses a precision saved after the last yield' % f.qualname)
+        elif key in A_R7_INTERNAL:
+            run.ok('A-R7', '%s: internal generator (%s)' % (f.qualname, A_R7_INTERNAL[key][:60]))
+        else:
+            seen = set()
+            for node in an.bad:
+                if id(node) in seen:
+                    continue
+                seen.add(id(node))
+                run.fail(Finding('A-R7', f.file, f.qualname, norm(node),
+                                 'the generator writes back a precision it saved before a yield: if the '
+                                 'consumer changed the precision between two items, the next item resets it '
+                                 'to the stale value (and leaves a surrounding workprec block running at it)',
+                                 line=node.lineno))
+    if n < 2:
+        raise AnalysisError('only %d generators that restore a precision found' % n)
